@@ -29,7 +29,29 @@ def method_segments(an, cm, roles, m, res=None):
                        'modelled for the caches in %s reached from %s::%s' % (note[0], show_site(note[1]), cm.name, m.key()))
                 if msg not in res.incomplete:
                     res.incomplete.append(msg)
+        note = expired_reinsertion(keep)
+        if note is not None:
+            msg = ('G-UNKNOWN an expired entry is erased and its key inserted again within one operation (%s): judged only as update in '
+                   'place or as plain insert, not as the combination in %s reached from %s::%s' % (note[0], show_site(note[1]), cm.name, m.key()))
+            if msg not in res.incomplete:
+                res.incomplete.append(msg)
     return keep
+
+
+def expired_reinsertion(tops):
+    """(key, site) if some path removes the entry found for key k after establishing that it is expired and binds k again"""
+    for top in tops:
+        for seg in top.all_segments():
+            unb = [e for e in seg.effs('UNBIND') if isinstance(e.ent, Ent) and e.ent.kind == 'FOUND']
+            if not unb:
+                continue
+            for u in unb:
+                k = u.ent.arg
+                expired = any(c[0] in ('EXPIRED', 'EXPIRED_STRICT') and c[2] is True and isinstance(c[1][0], Ent) and c[1][0].kind == 'FOUND'
+                              and c[1][0].arg == k for c in seg.conds)
+                if expired and any(b.key == k for b in seg.effs('BIND')):
+                    return show(k), u.site
+    return None
 
 
 def walking_iterator_slot(tops):
@@ -388,7 +410,7 @@ def rule_noninterference(an, res):
                 continue
             for top in method_segments(an, cm, roles, m, res):
                 bodies = ops.find_bodies(top, m)
-                if not bodies and not top.loops and not ops.empty_range_exit(top, m):
+                if not bodies and not top.loops and not ops.empty_range_exit(top, m) and not ops.empty_container_exit(top, m):
                     res.ob('R-PURE-NOOP', ok=False)
                     V(res, prop, 'R-PURE-NOOP', cm, m.key(), 'path does not consult the index', site_of_seg(top, m),
                       'no presence test on this path of %s' % m.key())
@@ -670,6 +692,7 @@ def check_observer(res, prop, cm, roles, m, top):
         want = 'size of the fixed slot storage'
         caps = [x for x in (L.slots, L.order, L.perm) if x is not None]
         ok = isinstance(r, tuple) and r[0] == 'q' and r[1] == 'size' and r[2] in caps and (r[4] or 0) == 0
+        ok = ok or (is_ld(r) and L.is_capacity(r))       # a const copy of the constructor argument
     ok = ok and not top.state_effects()
     res.ob('R-OBSERVERS', ok=ok)
     res.sample(dict(container=cm.name, method=m.key(), returns=show(r) if r is not None else None), cap=9)
@@ -892,7 +915,7 @@ def check_removals(res, prop, cm, roles, m, k, seg):
                     from rules_misc import raw_draw_is_bound_slot
                     if raw_draw_is_bound_slot(seg, ent):
                         lic = 'full insert evicts a uniformly drawn slot (all slots are bound when full)'
-                elif full is True and ent.kind in POLICY_VICTIMS[roles.name]:
+                elif full is True and (ent.kind in POLICY_VICTIMS[roles.name] or ('BACK' in POLICY_VICTIMS[roles.name] and seg.names_back(ent))):
                     if ent.kind == 'AUXHEAD' and roles.aux_kind.get(ent.arg) == 'ttl':
                         # expired-first: only when the head is expired
                         ex = [c for c in seg.conds if c[0] in ('EXPIRED', 'EXPIRED_STRICT') and c[2] and c[1][0].kind in ('AUXHEAD',)]
